@@ -147,6 +147,8 @@ struct Faults {
     short_read: bool,
     /// the debugging copy of the output (`duplicate_output`) goes to a device that is full
     tee_full: bool,
+    /// the tcsetattr of the release is interrupted by a signal once
+    tcsetattr_eintr: bool,
     /// a read of the readable tty now and then fails with EAGAIN or EINTR (another reader got
     /// there first; readiness was spurious; a signal handler ran)
     read_retry: bool,
@@ -219,6 +221,7 @@ struct Kernel {
     mangled_replies: u64,
     quit_raised: u64,
     read_retries: u32,
+    tcsetattr_interrupted: bool,
     /// the user has pressed the escape key and nothing after it
     lone_escape: bool,
     /// the application has used `Terminal::drain` (an iterator of events: it cannot report errors)
@@ -900,6 +903,16 @@ impl rustix::sim::Hooks for HooksImpl {
 
     fn tcsetattr(&mut self, actions: OptionalActions, termios: &Termios) -> rustix::io::Result<()> {
         let mut k = self.0.borrow_mut();
+        if k.faults.tcsetattr_eintr && k.disposing && !k.tcsetattr_interrupted && !matches!(actions, OptionalActions::Now) {
+            // TCSADRAIN/TCSAFLUSH wait for the output to drain: a signal whose handler was
+            // installed without SA_RESTART interrupts that wait; nothing has been changed
+            k.tcsetattr_interrupted = true;
+            k.src.fault("tcsetattr-interrupted");
+            k.src.sig_str("tcsetattr:eintr");
+            let now = k.now;
+            k.src.log(|| format!("t={}us   sys: tcsetattr -> EINTR", now / US));
+            return Err(Errno::INTR);
+        }
         k.tcsetattr_calls += 1;
         k.termios = termios.clone();
         if matches!(actions, OptionalActions::Flush) {
@@ -1041,6 +1054,7 @@ fn new_kernel(mut src: Src) -> Kernel {
         short_read: faults_on && src.chance(1, 2),
         read_retry: faults_on && src.chance(1, 4),
         tee_full: faults_on && src.chance(1, 16),
+        tcsetattr_eintr: faults_on && src.chance(1, 8),
         select_eintr: faults_on && src.chance(1, 3),
     };
     let drain_chunk = *src.pick(&[1 << 20, 4096usize, 64, 7, 1]);
@@ -1096,6 +1110,7 @@ fn new_kernel(mut src: Src) -> Kernel {
         mangled_replies: 0,
         quit_raised: 0,
         read_retries: 0,
+        tcsetattr_interrupted: false,
         lone_escape: false,
         drain_used: false,
         typed: Vec::new(),
